@@ -7,6 +7,13 @@ import PV.Lemmas.SocketAdopt
 
 Theorems about the model `PV.Model.Socket` of `psocket.c`; every statement is for all scripts of
 native results (and, where sequences are involved, all call sequences).
+
+§1 closed_is_dead / close_idempotent · §3 timeout_semantics / nonblocking_never_waits · §2 getters_reflect ·
+§4 cloexec · §5 fd_closed_once · §6 failure paths reached by the directed cases of the coverage audit
+(`refused_address_connect / _send_to / _bind`: an address object `p_socket_address_to_native` rejects;
+`new_from_fd_null_iff_error`, `new_from_fd_keeps_descriptor`: the error returns of adoption) ·
+§7 `p_socket_shutdown` reads its `pboolean`s with `== TRUE` (`shutdown_args_partial`, `…_write_only`,
+`…_noncanonical_witness`: the full "non-zero means TRUE" statement is false of the code).
 -/
 set_option linter.unusedSimpArgs false
 namespace PV.Socket
